@@ -205,6 +205,8 @@ std::string gen_name(sim::Rng& rng, const char* base, int i) {
   else if (k == 1) s += ",\"q\"";
   else if (k == 2) s += ",'x\\y'";
   else if (k == 3) s += ",'t\tab'";
+  else if (k == 4) s += ",'Z\xc3\xbcrich'";                     // UTF-8 string subscripts (two- and three-byte sequences)
+  else if (k == 5) s += ",'\xe6\x9d\xb1\xe4\xba\xac'";
   s += "]";
   return s;
 }
@@ -402,9 +404,18 @@ Model generate(sim::Rng& rng, const GenOptions& opt) {
       Suffix s; s.name = "sstatus"; s.kind = 0; for (int j = 0; j < nv; ++j) s.values.push_back({j, (double)(1 + (j % 6))}); m.suffixes.push_back(s);
       if (!m.cons.empty()) { Suffix t; t.name = "sstatus"; t.kind = 1; for (int i = 0; i < (int)m.cons.size(); ++i) t.values.push_back({i, (double)(1 + ((i + 2) % 6))}); m.suffixes.push_back(t); }
     }
-    if (rng.chance(0.08) && nv >= 3) {   // SOS via suffixes
+    if (rng.chance(0.10) && nv >= 2) {   // SOS via suffixes: .sosno/.ref (positive: SOS1, negative: SOS2), 1..4 members
       Suffix s; s.name = "sosno"; s.kind = 0; Suffix r; r.name = "ref"; r.kind = 0; r.real = true;
-      for (int j = 0; j < 3; ++j) { s.values.push_back({j, 1}); r.values.push_back({j, (double)(j + 1)}); }
+      int members = (int)rng.range(nv >= 3 ? 2 : 1, std::min(nv, 4));
+      if (rng.chance(0.1)) members = 1;
+      double no = rng.chance(0.5) ? 1 : -1;
+      for (int j = 0; j < members; ++j) { s.values.push_back({j, no}); r.values.push_back({j, (double)(j + 1)}); }
+      m.suffixes.push_back(s); m.suffixes.push_back(r);
+    } else if (rng.chance(0.08) && nv >= 2) {   // .sos/.sosref: what AMPL emits when it linearizes a piecewise-linear term itself (SOS2)
+      Suffix s; s.name = "sos"; s.kind = 0; Suffix r; r.name = "sosref"; r.kind = 0; r.real = true;
+      int members = (int)rng.range(2, std::min(nv, 5));
+      int first = (int)rng.below((uint64_t)(nv - members + 1));
+      for (int j = 0; j < members; ++j) { s.values.push_back({first + j, 3}); r.values.push_back({first + j, (double)(j + 1)}); }
       m.suffixes.push_back(s); m.suffixes.push_back(r);
     }
     if (rng.chance(0.1) && nobjs > 0) { Suffix s; s.name = "objpriority"; s.kind = 2; for (int i = 0; i < nobjs; ++i) s.values.push_back({i, (double)(i + 1)}); m.suffixes.push_back(s); }
@@ -422,52 +433,84 @@ Model generate(sim::Rng& rng, const GenOptions& opt) {
   m.linear_clean = !has_nl && m.all_bounded && m.lcons.empty() && m.commons.empty();
   for (auto& a : m.cons) if (a.compl_var >= 0) m.linear_clean = false;
   for (auto& v : m.vars) if (v.lb > v.ub) m.linear_clean = false;
-  for (auto& s : m.suffixes) if (s.name == "sosno") m.linear_clean = false;
+  for (auto& s : m.suffixes) if (s.name == "sosno" || s.name == "sos") m.linear_clean = false;
   return m;
 }
 
-// ------------------------------------------------------------------ text NL emitter
+// ------------------------------------------------------------------ NL emitter (text and binary)
 namespace {
 
-void emit_expr(std::string& out, const Expr& e) {
+// One writer for both encodings: header lines are text in both; after the header a text file has
+// one record per line with blank-separated fields, a binary file has a code byte, 4-byte ints,
+// 8-byte doubles and length-prefixed strings (little endian, arith kind 1).
+struct W {
+  bool bin;
+  std::string out;
+  bool first = true;   // text: no blank before the first field of a record / right after a code letter
+  void code(char c) { out += c; first = true; }
+  void i(long v) {
+    if (bin) { int32_t x = (int32_t)v; out.append((const char*)&x, 4); return; }
+    if (!first) out += ' ';
+    out += std::to_string(v); first = false;
+  }
+  void d(double v) {
+    if (bin) { out.append((const char*)&v, 8); return; }
+    if (!first) out += ' ';
+    out += fmt_double(v); first = false;
+  }
+  void name(const std::string& v) {          // F and S segment names
+    if (bin) { i((long)v.size()); out += v; return; }
+    if (!first) out += ' ';
+    out += v; first = false;
+  }
+  void str(const std::string& v) {           // 'h' string literal
+    if (bin) { i((long)v.size()); out += v; return; }
+    out += std::to_string(v.size()) + ":" + v; first = false;
+  }
+  void eol() { if (!bin) out += '\n'; first = true; }
+};
+
+void emit_expr(W& w, const Expr& e) {
   switch (e.kind) {
-    case 'n': out += "n" + fmt_double(e.num) + "\n"; return;
-    case 'v': out += "v" + std::to_string(e.index) + "\n"; return;
-    case 'h': out += "h" + std::to_string(e.str.size()) + ":" + e.str + "\n"; return;
+    case 'n': w.code('n'); w.d(e.num); w.eol(); return;
+    case 'v': w.code('v'); w.i(e.index); w.eol(); return;
+    case 'h': w.code('h'); w.str(e.str); w.eol(); return;
     case 'f':
-      out += "f" + std::to_string(e.op) + " " + std::to_string(e.args.size()) + "\n";
-      for (auto& a : e.args) emit_expr(out, a);
+      w.code('f'); w.i(e.op); w.i((long)e.args.size()); w.eol();
+      for (auto& a : e.args) emit_expr(w, a);
       return;
     case 'o': break;
   }
-  out += "o" + std::to_string(e.op) + "\n";
+  w.code('o'); w.i(e.op); w.eol();
   if (e.op == 64) {
-    out += std::to_string(e.slopes.size()) + "\n";
-    for (size_t i = 0; i < e.breakpoints.size(); ++i) {
-      out += "n" + fmt_double(e.slopes[i]) + "\n";
-      out += "n" + fmt_double(e.breakpoints[i]) + "\n";
+    w.i((long)e.slopes.size()); w.eol();
+    for (size_t k = 0; k < e.breakpoints.size(); ++k) {
+      w.code('n'); w.d(e.slopes[k]); w.eol();
+      w.code('n'); w.d(e.breakpoints[k]); w.eol();
     }
-    out += "n" + fmt_double(e.slopes.back()) + "\n";
-    emit_expr(out, e.args[0]);
+    w.code('n'); w.d(e.slopes.back()); w.eol();
+    emit_expr(w, e.args[0]);
     return;
   }
   bool vararg = e.op == 11 || e.op == 12 || e.op == 54 || e.op == 59 || e.op == 60 || e.op == 61 || e.op == 70 || e.op == 71 || e.op == 74 || e.op == 75;
-  if (vararg) out += std::to_string(e.args.size()) + "\n";
-  for (auto& a : e.args) emit_expr(out, a);
+  if (vararg) { w.i((long)e.args.size()); w.eol(); }
+  for (auto& a : e.args) emit_expr(w, a);
 }
 
-void emit_bound(std::string& out, double lb, double ub) {
+void emit_bound(W& w, double lb, double ub) {
   bool il = std::isinf(lb), iu = std::isinf(ub);
-  if (il && iu) out += "3\n";
-  else if (il) out += "1 " + fmt_double(ub) + "\n";
-  else if (iu) out += "2 " + fmt_double(lb) + "\n";
-  else if (lb == ub) out += "4 " + fmt_double(lb) + "\n";
-  else out += "0 " + fmt_double(lb) + " " + fmt_double(ub) + "\n";
+  // the bound kind is a character in both encodings
+  if (il && iu) { w.out += '3'; w.first = false; }
+  else if (il) { w.out += '1'; w.first = false; w.d(ub); }
+  else if (iu) { w.out += '2'; w.first = false; w.d(lb); }
+  else if (lb == ub) { w.out += '4'; w.first = false; w.d(lb); }
+  else { w.out += '0'; w.first = false; w.d(lb); w.d(ub); }
+  w.eol();
 }
 
 }  // namespace
 
-std::string emit_nl_text(const Model& m) {
+std::string emit_nl(const Model& m, bool binary) {
   std::string out;
   int nv = m.nvars(), nc = (int)m.cons.size(), no = (int)m.objs.size(), nl = (int)m.lcons.size();
   int nranges = 0, neqns = 0, ncompl = 0;
@@ -478,72 +521,76 @@ std::string emit_nl_text(const Model& m) {
   size_t nzJ = 0, nzG = 0;
   for (auto& a : m.cons) nzJ += a.lin.size();
   for (auto& o : m.objs) nzG += o.lin.size();
-  out += "g" + std::to_string(m.noptions);
+  out += (binary ? "b" : "g") + std::to_string(m.noptions);
   for (int i = 0; i < m.noptions; ++i) out += " " + std::to_string(m.options[i]);
   out += "\t# problem gen\n";
   out += " " + std::to_string(nv) + " " + std::to_string(nc) + " " + std::to_string(no) + " " + std::to_string(nranges) + " " + std::to_string(neqns) + " " + std::to_string(nl) + "\t# vars, constraints, objectives, ranges, eqns, lcons\n";
   out += " " + std::to_string(m.num_nl_cons()) + " " + std::to_string(m.num_nl_objs()) + " " + std::to_string(ncompl) + " 0\t# nonlinear constraints, objectives; compl\n";
   out += " 0 0\t# network constraints: nonlinear, linear\n";
   out += " " + std::to_string(m.nlvc) + " " + std::to_string(m.nlvo) + " " + std::to_string(m.nlvb) + "\t# nonlinear vars in constraints, objectives, both\n";
-  out += " 0 " + std::to_string(m.funcs.size()) + " 0 1\t# linear network variables; functions; arith, flags\n";
+  out += " 0 " + std::to_string(m.funcs.size()) + (binary ? " 1 1" : " 0 1") + "\t# linear network variables; functions; arith, flags\n";
   out += " " + std::to_string(m.nbv) + " " + std::to_string(m.niv) + " " + std::to_string(m.nlvbi) + " " + std::to_string(m.nlvci) + " " + std::to_string(m.nlvoi) + "\t# discrete variables: binary, integer, nonlinear (b,c,o)\n";
   out += " " + std::to_string(nzJ) + " " + std::to_string(nzG) + "\t# nonzeros in Jacobian, gradients\n";
   out += " 0 0\t# max name lengths: constraints, variables\n";
   out += " " + std::to_string(m.commons.size()) + " 0 0 0 0\t# common exprs: b,c,o,c1,o1\n";
-  for (size_t i = 0; i < m.funcs.size(); ++i)
-    out += "F" + std::to_string(i) + " " + std::to_string(m.funcs[i].type) + " " + std::to_string(m.funcs[i].nargs) + " " + m.funcs[i].name + "\n";
+  W w; w.bin = binary;
+  for (size_t i = 0; i < m.funcs.size(); ++i) {
+    w.code('F'); w.i((long)i); w.i(m.funcs[i].type); w.i(m.funcs[i].nargs); w.name(m.funcs[i].name); w.eol();
+  }
   for (auto& s : m.suffixes) {
-    out += "S" + std::to_string(s.kind | (s.real ? 4 : 0)) + " " + std::to_string(s.values.size()) + " " + s.name + "\n";
-    for (auto& v : s.values) out += std::to_string(v.first) + " " + fmt_double(v.second) + "\n";
+    w.code('S'); w.i(s.kind | (s.real ? 4 : 0)); w.i((long)s.values.size()); w.name(s.name); w.eol();
+    for (auto& v : s.values) { w.i(v.first); if (s.real || !binary) w.d(v.second); else w.i((long)v.second); w.eol(); }
   }
   for (size_t k = 0; k < m.commons.size(); ++k) {
-    out += "V" + std::to_string(nv + k) + " " + std::to_string(m.commons[k].lin.size()) + " 0\n";
-    for (auto& t : m.commons[k].lin) out += std::to_string(t.var) + " " + fmt_double(t.coef) + "\n";
-    emit_expr(out, m.commons[k].nl);
+    w.code('V'); w.i((long)(nv + k)); w.i((long)m.commons[k].lin.size()); w.i(0); w.eol();
+    for (auto& t : m.commons[k].lin) { w.i(t.var); w.d(t.coef); w.eol(); }
+    emit_expr(w, m.commons[k].nl);
   }
   for (int i = 0; i < nc; ++i) {
-    out += "C" + std::to_string(i) + "\n";
-    if (m.cons[i].has_nl) emit_expr(out, m.cons[i].nl); else out += "n0\n";
+    w.code('C'); w.i(i); w.eol();
+    if (m.cons[i].has_nl) emit_expr(w, m.cons[i].nl); else { w.code('n'); w.d(0); w.eol(); }
   }
-  for (int i = 0; i < nl; ++i) { out += "L" + std::to_string(i) + "\n"; emit_expr(out, m.lcons[i].e); }
+  for (int i = 0; i < nl; ++i) { w.code('L'); w.i(i); w.eol(); emit_expr(w, m.lcons[i].e); }
   for (int i = 0; i < no; ++i) {
-    out += "O" + std::to_string(i) + " " + (m.objs[i].maximize ? "1" : "0") + "\n";
-    if (m.objs[i].has_nl) emit_expr(out, m.objs[i].nl);
-    else out += "n" + fmt_double(m.objs[i].constant) + "\n";
+    w.code('O'); w.i(i); w.i(m.objs[i].maximize ? 1 : 0); w.eol();
+    if (m.objs[i].has_nl) emit_expr(w, m.objs[i].nl);
+    else { w.code('n'); w.d(m.objs[i].constant); w.eol(); }
   }
-  if (!m.d0.empty()) { out += "d" + std::to_string(m.d0.size()) + "\n"; for (auto& v : m.d0) out += std::to_string(v.first) + " " + fmt_double(v.second) + "\n"; }
-  if (!m.x0.empty()) { out += "x" + std::to_string(m.x0.size()) + "\n"; for (auto& v : m.x0) out += std::to_string(v.first) + " " + fmt_double(v.second) + "\n"; }
+  if (!m.d0.empty()) { w.code('d'); w.i((long)m.d0.size()); w.eol(); for (auto& v : m.d0) { w.i(v.first); w.d(v.second); w.eol(); } }
+  if (!m.x0.empty()) { w.code('x'); w.i((long)m.x0.size()); w.eol(); for (auto& v : m.x0) { w.i(v.first); w.d(v.second); w.eol(); } }
   if (nc > 0) {
-    out += "r\n";
+    w.code('r'); w.eol();
     for (auto& a : m.cons) {
-      if (a.compl_var >= 0) out += "5 3 " + std::to_string(a.compl_var + 1) + "\n";
-      else emit_bound(out, a.lb, a.ub);
+      if (a.compl_var >= 0) { w.out += '5'; w.first = false; w.i(3); w.i(a.compl_var + 1); w.eol(); }
+      else emit_bound(w, a.lb, a.ub);
     }
   }
-  out += "b\n";
-  for (auto& v : m.vars) emit_bound(out, v.lb, v.ub);
+  w.code('b'); w.eol();
+  for (auto& v : m.vars) emit_bound(w, v.lb, v.ub);
   if (nc > 0 && nv > 1) {
     std::vector<int> colcount(nv, 0);
     for (auto& a : m.cons) for (auto& t : a.lin) colcount[t.var]++;
-    out += "k" + std::to_string(nv - 1) + "\n";
+    w.code('k'); w.i(nv - 1); w.eol();
     int cum = 0;
-    for (int j = 0; j < nv - 1; ++j) { cum += colcount[j]; out += std::to_string(cum) + "\n"; }
+    for (int j = 0; j < nv - 1; ++j) { cum += colcount[j]; w.i(cum); w.eol(); }
   } else if (nv > 1) {
-    out += "k" + std::to_string(nv - 1) + "\n";
-    for (int j = 0; j < nv - 1; ++j) out += "0\n";
+    w.code('k'); w.i(nv - 1); w.eol();
+    for (int j = 0; j < nv - 1; ++j) { w.i(0); w.eol(); }
   }
   for (int i = 0; i < nc; ++i) {
     if (m.cons[i].lin.empty()) continue;
-    out += "J" + std::to_string(i) + " " + std::to_string(m.cons[i].lin.size()) + "\n";
-    for (auto& t : m.cons[i].lin) out += std::to_string(t.var) + " " + fmt_double(t.coef) + "\n";
+    w.code('J'); w.i(i); w.i((long)m.cons[i].lin.size()); w.eol();
+    for (auto& t : m.cons[i].lin) { w.i(t.var); w.d(t.coef); w.eol(); }
   }
   for (int i = 0; i < no; ++i) {
     if (m.objs[i].lin.empty()) continue;
-    out += "G" + std::to_string(i) + " " + std::to_string(m.objs[i].lin.size()) + "\n";
-    for (auto& t : m.objs[i].lin) out += std::to_string(t.var) + " " + fmt_double(t.coef) + "\n";
+    w.code('G'); w.i(i); w.i((long)m.objs[i].lin.size()); w.eol();
+    for (auto& t : m.objs[i].lin) { w.i(t.var); w.d(t.coef); w.eol(); }
   }
-  return out;
+  return out + w.out;
 }
+
+std::string emit_nl_text(const Model& m) { return emit_nl(m, false); }
 
 std::string emit_col(const Model& m) {
   std::string s;
